@@ -14,7 +14,7 @@ from bctmc.tally import Tally
 
 PROPERTY = 'C03'
 RULE = ('every labelled digraph / undirected graph of the stated families (binary n<=4 dir, n<=5 und; '
-        'lengths {1,2,3} on 3-node digraphs and 4-node graphs; weights {1,1/2,1/4} for inv/log; thorough adds '
+        'lengths {1,2,3} and the near-tie alphabet {1, 2, 2+2^-20} (1+1 is shorter than 2+2^-20 by less than any common tolerance) on 3-node digraphs and 4-node graphs; weights {1,1/2,1/4} for inv/log; thorough adds '
         'lengths {1,2} on all 4-node digraphs and 5-node graphs, binary n=6 und, n=5 dir with <=... see families '
         'counter); non-trivial = graph with an unreachable ordered pair and a pair at distance >= 2 hops, or '
         '(weighted) a pair whose minimum length is attained with two different hop counts (tie)')
@@ -34,6 +34,8 @@ FAMILIES = {
     'len_und4': ('len', False, 4, (0, 1, 2, 3), 'q'),
     'len_dir4': ('len', True, 4, (0, 1, 2), 't'),
     'len_und5': ('len', False, 5, (0, 1, 2), 't'),
+    'neartie_dir3': ('len', True, 3, (0, 1, 2, 2 + 2.0 ** -20), 'q'),
+    'neartie_und4': ('len', False, 4, (0, 1, 2, 2 + 2.0 ** -20), 'q'),
     'wt_dir3': ('wt', True, 3, (0, 1, 0.5, 0.25), 'q'),
     'wt_und4': ('wt', False, 4, (0, 1, 0.5, 0.25), 'q'),
     'wt_und5': ('wt', False, 5, (0, 1, 0.5), 't'),
